@@ -8,6 +8,7 @@ import (
 	"strings"
 	"time"
 
+	"github.com/emersion/go-message/textproto"
 	"github.com/emersion/go-smtp"
 	"github.com/foxcpp/maddy/framework/buffer"
 	"github.com/foxcpp/maddy/framework/log"
@@ -20,6 +21,7 @@ import (
 )
 
 const spool = "/spool"
+const spool2 = "/spool2"
 
 const passwordMarker = "S3CR3T-PASSW0RD-MARKER"
 
@@ -33,6 +35,10 @@ type World struct {
 	fs   *simfs.FS
 	tgt  *actors.ScriptedTarget
 	sink *actors.ScriptedTarget
+	// report chain (C18): second queue, its failing target, its bounce sink
+	q2       *queue.Queue
+	chainTgt *actors.ScriptedTarget
+	sink2    *actors.ScriptedTarget
 
 	inc       *simrt.Inc
 	incN      int
@@ -112,6 +118,25 @@ func (w *World) boot(delay time.Duration) {
 		var bounce module.DeliveryTarget
 		if w.sc.Bounce {
 			bounce = w.sink
+		}
+		if w.sc.Bounce && w.sc.Chain && w.prop == "C18" {
+			q2, err := queue.VerifNewQueue(queue.VerifConfig{
+				Location:         spool2,
+				Target:           w.chainTgt,
+				Bounce:           w.sink2,
+				Hostname:         "mx.sim.example",
+				AutogenMsgDomain: "sim.example",
+				InitialRetry:     w.sc.Retry,
+				RetryScale:       w.sc.Scale,
+				MaxTries:         2,
+				Parallelism:      w.sc.Parallel,
+				Log:              log.Logger{Out: log.NopOutput{}, Name: "queue2"},
+			})
+			if err != nil {
+				simrt.Harnessf("second queue: %v", err)
+			}
+			w.q2 = q2
+			bounce = &tee{a: w.sink, b: q2}
 		}
 		var down module.DeliveryTarget = w.tgt
 		if w.downOverride != nil {
@@ -238,6 +263,29 @@ func Run(s *simrt.Sim, a *harness.Args, r *harness.Result) {
 	w.tgt.PlanFor = w.planFor
 	w.sink = &actors.ScriptedTarget{Label: "bounce", Prop: a.Prop}
 	w.sink.PlanFor = w.sinkPlanFor
+	simfs.CanonName = nil
+	if sc.Chain {
+		// the second queue stores reports under their random identifiers
+		simfs.CanonName = func(b string) string {
+			stem, ext := b, ""
+			if i := strings.Index(b, "."); i >= 0 {
+				stem, ext = b[:i], b[i:]
+			}
+			if strings.HasPrefix(stem, "msg") || stem == "" {
+				return b
+			}
+			return s.ID("id", stem) + ext
+		}
+		simfs.MkdirAll(spool2, 0o755)
+		w.chainTgt = &actors.ScriptedTarget{Label: "chain", Prop: a.Prop}
+		w.chainTgt.PlanFor = func(tx *actors.TxRecord) *actors.StagePlan {
+			if n := len(w.chainTgt.Txs) - 1; n >= 0 && n < len(sc.ChainPlans) {
+				return sc.ChainPlans[n]
+			}
+			return &actors.StagePlan{}
+		}
+		w.sink2 = &actors.ScriptedTarget{Label: "bounce2", Prop: a.Prop}
+	}
 
 	// crash knobs (C02, C10): crash_at = mutating op number, 0 = none
 	w.fs.CrashAt = knob(a, "crash_at", 0)
@@ -416,9 +464,13 @@ func (w *World) closeLive() {
 		return
 	}
 	q := w.q
+	q2 := w.q2
 	n := w.incN
 	w.s.Spawn(fmt.Sprintf("close%d", n), w.inc, func() {
 		q.Close()
+		if q2 != nil {
+			q2.Close()
+		}
 		w.closeDone[n] = true
 	})
 	res := w.s.Run(time.Hour, func() bool { return w.closeDone[n] })
@@ -465,4 +517,66 @@ func fmtRes(tx *actors.TxRecord) string {
 	}
 	sort.Strings(parts)
 	return strings.Join(parts, ",")
+}
+
+// tee hands every delivery to a first and, as far as that one accepts it, to b
+// as well - what a pipeline with two targets does. Only a decides the result.
+type tee struct{ a, b module.DeliveryTarget }
+
+type teeDelivery struct{ a, b module.Delivery }
+
+func (t *tee) Start(ctx context.Context, meta *module.MsgMetadata, from string) (module.Delivery, error) {
+	da, err := t.a.Start(ctx, meta, from)
+	if err != nil {
+		return nil, err
+	}
+	db, err := t.b.Start(ctx, meta, from)
+	if err != nil {
+		db = nil
+	}
+	return &teeDelivery{a: da, b: db}, nil
+}
+
+func (d *teeDelivery) dropB(ctx context.Context) {
+	if d.b != nil {
+		d.b.Abort(ctx)
+		d.b = nil
+	}
+}
+
+func (d *teeDelivery) AddRcpt(ctx context.Context, rcpt string, opts smtp.RcptOptions) error {
+	if err := d.a.AddRcpt(ctx, rcpt, opts); err != nil {
+		return err
+	}
+	if d.b != nil && d.b.AddRcpt(ctx, rcpt, opts) != nil {
+		d.dropB(ctx)
+	}
+	return nil
+}
+
+func (d *teeDelivery) Body(ctx context.Context, h textproto.Header, b buffer.Buffer) error {
+	if err := d.a.Body(ctx, h, b); err != nil {
+		return err
+	}
+	if d.b != nil && d.b.Body(ctx, h, b) != nil {
+		d.dropB(ctx)
+	}
+	return nil
+}
+
+func (d *teeDelivery) Abort(ctx context.Context) error {
+	d.dropB(ctx)
+	return d.a.Abort(ctx)
+}
+
+func (d *teeDelivery) Commit(ctx context.Context) error {
+	if err := d.a.Commit(ctx); err != nil {
+		d.dropB(ctx)
+		return err
+	}
+	if d.b != nil {
+		d.b.Commit(ctx)
+		d.b = nil
+	}
+	return nil
 }
